@@ -18,6 +18,18 @@ DEFELEM(1) DEFELEM(2) DEFELEM(4) DEFELEM(6) DEFELEM(12) DEFELEM(20)
 static var ETYPE = NULL;     /* NULL: elements are Int */
 static size_t ESIZE = 0;
 static int EXPLICIT = 0;
+static int CMPK = -1;        /* -1: `t` is sort(t); 0..7: `t` is sort_by(t, CMPS[CMPK]) (flag c<d>, coq/SeqCmps.v) */
+
+static uint64_t uabs(int64_t x) { return x < 0 ? (uint64_t)0 - (uint64_t)x : (uint64_t)x; }
+static bool f_lt(var a, var b) { return c_int(a) < c_int(b); }
+static bool f_gt(var a, var b) { return c_int(a) > c_int(b); }
+static bool f_le(var a, var b) { return c_int(a) <= c_int(b); }
+static bool f_ge(var a, var b) { return c_int(a) >= c_int(b); }
+static bool f_abs(var a, var b) { return uabs(c_int(a)) < uabs(c_int(b)); }
+static bool f_key(var a, var b) { return uabs(c_int(a)) / 4 < uabs(c_int(b)) / 4; }
+static bool f_never(var a, var b) { return false; }
+static bool f_always(var a, var b) { return true; }
+static bool (*CMPS[8])(var, var) = { f_lt, f_gt, f_le, f_ge, f_abs, f_key, f_never, f_always };
 
 #define NPROBE 4
 static const int64_t PROBES[NPROBE] = {0, 1, 2, 7};
@@ -191,9 +203,10 @@ static void dump_none(var t) {
 static void one_case(char* line) {
   char* bar = strchr(line, '|');
   if (line[0] == 0 || bar == NULL) { P("BADCASE"); return; }
-  KIND = line[0]; ETYPE = NULL; ESIZE = 0; EXPLICIT = 0;
+  KIND = line[0]; ETYPE = NULL; ESIZE = 0; EXPLICIT = 0; CMPK = -1;
   for (char* f = line + 1; f < bar; f++) {
     if (*f == '*') EXPLICIT = 1;
+    else if (*f == 'c' && f[1] >= '0' && f[1] <= '7') { CMPK = f[1] - '0'; f++; }
     else if (*f == 'e') {
       ESIZE = (size_t)strtoul(f + 1, &f, 10); f--;
       ETYPE = ESIZE == 1 ? E1 : ESIZE == 2 ? E2 : ESIZE == 4 ? E4 : ESIZE == 6 ? E6 : ESIZE == 12 ? E12 : ESIZE == 20 ? E20 : NULL;
@@ -255,7 +268,21 @@ static void one_case(char* line) {
         case 'c': concat(t, make(tok[1], tok + 3)); break;
         case 'a': append(t, elem(num(tok + 1))); break;
         case 'z': resize(t, (size_t)strtoull(tok + 1, NULL, 10)); break;
-        case 't': sort(t); break;
+        case 't': {
+          /* a Tuple sorts pointers: the result must hold exactly the pointers it held (by identity) */
+          static var before[MAXV]; size_t nb = 0;
+          if (KIND is 'T' or KIND is 'S') { nb = len(t); if (nb > MAXV) nb = MAXV; for (size_t i = 0; i < nb; i++) before[i] = get(t, $I((int64_t)i)); }
+          if (CMPK < 0) sort(t); else sort_by(t, CMPS[CMPK]);
+          if (KIND is 'T' or KIND is 'S') {
+            if (len(t) != nb) res = "ok!LEN";
+            for (size_t i = 0; i < nb and i < len(t); i++) {
+              var x = get(t, $I((int64_t)i)); size_t j = 0;
+              while (j < nb and before[j] isnt x) j++;
+              if (j == nb) { res = "ok!POINTERS"; break; }
+              before[j] = NULL;
+            }
+          }
+          break; }
         case 'n': assign(t, make(tok[1], tok + 3)); break;
         /* D21 witnesses: a wrong-typed element (String into a container of Int) */
         case 'x': push(t, new_raw(String, $S("x"))); break;
